@@ -309,8 +309,8 @@ def merge_parse(ln):
 def merge_cases(fn, tier, rng):
     out = []
     G = [NONE, b"A", b"B", b"AB", b"ab", b"bA", b"_nooD_"]
-    K = [b"x", b"y", b"xy", b"ab", b"bA"]
-    V = [b"1", b"two words", None, b""]
+    K = [b"x", b"y", b"xy", b"ab", b"bA", b"_none_"]       # (a key may be called like the library's placeholder text)
+    V = [b"1", b"two words", None, b"", b"_none_"]
 
     def add(t):
         out.append((merge_line(fn, t), fn + " " + merge_expected(fn, t)))
@@ -345,10 +345,95 @@ def merge_cases(fn, tier, rng):
     return out
 
 
+# ---------- the getters that return arrays through out-parameters (econf_getGroups, econf_getKeys)
+GETTER_FNS = ("getGroups", "getKeys")
+
+
+def getter_expected(fn, obj, grp, mode):
+    """documented behaviour.  econf_getGroups: the names of all groups except the pseudo group of the group-less keys, in the
+    order of the object, their number in *length, the array NULL-terminated; ECONF_ERROR without an object or without a place for
+    the array, ECONF_NOGROUP for an object without groups - nothing is written then.  econf_getKeys: the keys of the entries of
+    the group (NULL or "" = the group-less keys), in order, repeated definitions included; *length (when given) is set to 0 first;
+    ECONF_ERROR without an object, ECONF_NOKEY when the group has no entry - the array pointer is not written then."""
+    if fn == "getGroups":
+        if obj is None or mode == "g":
+            return "E1 77 same"
+        if not obj:
+            return "E4 77 same"
+        names = [g for g in obj if g != NONE]
+        if not names:
+            return "E0 0 null"          # only the pseudo group: success, no array
+        return "E0 %d g%s" % (len(names), ",".join(hx(g) for g in names))
+    ln = 77 if mode == "l" else 0
+    if obj is None:
+        return "E1 %d same" % ln
+    g = NONE if not grp else grp
+    keys = [k for eg, k in obj if eg == g]
+    if not keys:
+        return "E5 %d same" % ln
+    return "E0 %d g%s" % (77 if mode == "l" else len(keys), ",".join(hx(k) for k in keys))
+
+
+def getter_line(fn, obj, grp, mode):
+    if fn == "getGroups":
+        return "%s %s %s" % (fn, "-" if obj is None else "g" + ",".join(hx(g) for g in obj), mode)
+    return "%s %s %s %s" % (fn, "-" if obj is None else ents_token(obj), arg_token(grp), mode)
+
+
+def getter_parse(ln):
+    t = ln.split()
+    fn = t[0]
+    items = [x for x in t[1][1:].split(",") if x]
+    if fn == "getGroups":
+        return fn, (None if t[1] == "-" else [bytes.fromhex(x[1:]) for x in items]), None, t[2]
+    obj = None if t[1] == "-" else [tuple(bytes.fromhex(y[1:]) for y in x.split(":")) for x in items]
+    return fn, obj, (None if t[2] == "-" else bytes.fromhex(t[2][1:])), t[3]
+
+
+def getter_cases(fn, tier, rng):
+    out = []
+
+    def add(obj, grp, mode):
+        out.append((getter_line(fn, obj, grp, mode), fn + " " + getter_expected(fn, obj, grp, mode)))
+    if fn == "getGroups":
+        add(None, None, "n")
+        add(None, None, "g")
+        small = [NONE, b"A", b"B", b"", b"_nooD_"]
+        for n in range(0, (4 if tier == "quick" else 5)):
+            for obj in itertools.product(small, repeat=n):
+                add(list(obj), None, "n")
+                if n < 3:
+                    add(list(obj), None, "g")
+        for _ in range(400 if tier == "quick" else 20000):
+            n = rng.choice([1, 2, 3, 5, 8, 13, 40])
+            obj = [rng.choice(KF_GROUPS if rng.random() < 0.7 else [NONE, b"A"]) for _ in range(n)]
+            add(obj, None, "n" if rng.random() < 0.95 else "g")
+        return out
+    grps = [None, b"", b"A", NONE, b"B", b"_nooD_"]
+    for g in grps:
+        add(None, g, "n")
+        add(None, g, "l")
+    small = [(g, k) for g in (NONE, b"A", b"B") for k in KF_KEYS[:2]]
+    for n in range(0, (3 if tier == "quick" else 4)):
+        for obj in itertools.product(small, repeat=n):
+            for g in grps[:5]:
+                add(list(obj), g, "n")
+                if n < 2:
+                    add(list(obj), g, "l")
+    for _ in range(400 if tier == "quick" else 20000):
+        n = rng.choice([1, 2, 3, 5, 8, 13, 40])
+        obj = [(rng.choice(KF_GROUPS), rng.choice(KF_KEYS)) for _ in range(n)]
+        add(obj, rng.choice(KF_GROUPS + [None]), "n" if rng.random() < 0.9 else "l")
+    return out
+
+
 def expected(ln):
     """expected output of an input line (replay)"""
     t = ln.split()
     fn = t[0]
+    if fn in GETTER_FNS:
+        f2, obj, grp, mode = getter_parse(ln)
+        return fn + " " + getter_expected(f2, obj, grp, mode)
     if fn in MERGE_FNS:
         f2, tt = merge_parse(ln)
         return fn + " " + merge_expected(f2, tt)
@@ -381,6 +466,8 @@ def run(res, harness, tier, rng, fns):
             cases = merge_cases(fn, tier, rng)
         elif fn in KF_FNS:
             cases = kf_cases(fn, tier, rng)
+        elif fn in GETTER_FNS:
+            cases = getter_cases(fn, tier, rng)
         else:
             cases = [("%s %s" % (fn, " ".join(hx(a) for a in t)), None) for t in inputs(fn, tier, rng)]
             cases = [(ln, expected(ln)) for ln, _ in cases]
